@@ -75,6 +75,16 @@ CLAIMS = {
          "Decided for all orderings of len(p) and the bursts: batch = min(len(p), bursts), every present limiter is asked for exactly the batch before the single underlying read of exactly p[:batch], a failed wait reads nothing, "
          "results pass through; Handle wraps the previous cx.Conn with the handler-wide limiter always and a fresh local limiter iff configured, honours latency and cancellation. The numeric bound itself relies on x/time/rate.",
          "DESIGN.md section 4 C17"),
+ "C16": ("finite-predicate path evaluation of Socks5Handler.Provision over command lists and credential maps; who-may-call census",
+         "Decided for command lists of 0..2 entries resolving to CONNECT/ASSOCIATE/BIND/empty/unknown and credential maps of 0 or 2 entries: the PermitCommand rule enables exactly the configured commands (default CONNECT+ASSOCIATE), "
+         "any other resolved value fails provisioning, NoAuth is offered iff no credentials are configured and otherwise only user/password over the resolved map, both options reach NewServer; the package itself never dials or listens and Handle "
+         "only delegates to ServeConn. Enforcement inside go-socks5 is trusted.",
+         "DESIGN.md section 4 C16"),
+ "C18": ("byte-layout abstract interpretation of parser and serialiser (fields tracked as byte ranges of a symbolic input of concrete length), exhaustive evaluation of the header byte codec, struct size computation",
+         "Decided for 12 wire types of OpenVPN, WireGuard and RDP and every length at/around their size bounds: parse-then-serialise reproduces the input byte for byte on every accepting path, lengths outside the bounds are rejected on every path "
+         "(exact size for fixed-size types), no fixed-width decoding reads past its slice, the OpenVPN header byte round-trips for all 256 values, declared size constants equal encoded struct sizes. Winbox (value-dependent chunking) and "
+         "serialise-then-parse of arbitrary field values are not decided.",
+         "DESIGN.md section 4 C18"),
 }
 
 checks = []
